@@ -42,13 +42,32 @@ def rand_features(rng, op, labels, p=0.35):
     if rng.random() < 0.3:
         op["zone"] = rng.choice(["zoneA", "zoneB"])
     if labels:
+        on_edge = {}  # an edge can be projected to at most two surfaces (documented precondition, C20)
+
+        def fits(edges, lb):
+            return all(len(on_edge.get(frozenset(e), set()) | {lb}) <= 2 for e in edges)
+
+        def put(edges, lb):
+            for e in edges:
+                on_edge.setdefault(frozenset(e), set()).add(lb)
+
         for s in SIDE_NAMES:
             if rng.random() < 0.12:
-                op["proj_sides"].append({"side": s, "label": rng.choice(labels), "edges": rng.random() < 0.4, "points": rng.random() < 0.4})
+                lb = rng.choice(labels)
+                with_edges = rng.random() < 0.4
+                side_edges = [e for e in hexconv.EDGES if set(e) <= hexconv.SIDES[s]]
+                if with_edges and not fits(side_edges, lb):
+                    with_edges = False
+                if with_edges:
+                    put(side_edges, lb)
+                op["proj_sides"].append({"side": s, "label": lb, "edges": with_edges, "points": rng.random() < 0.4})
         if rng.random() < 0.25:
             e = rng.choice(hexconv.EDGES)
-            e = list(e) if rng.random() < 0.5 else [e[1], e[0]]
-            op["proj_edges"].append([e[0], e[1], rng.choice(labels)])
+            lb = rng.choice(labels)
+            if fits([e], lb):
+                put([e], lb)
+                e = list(e) if rng.random() < 0.5 else [e[1], e[0]]
+                op["proj_edges"].append([e[0], e[1], lb])
         if rng.random() < 0.25:
             op["proj_corners"].append([rng.randrange(8), rng.choice(labels)])
 
